@@ -449,6 +449,9 @@ func add(xs iter.Seq[any]) any {
 		case map[string]any:
 			switch w := v.(type) {
 			case nil:
+				if x == nil {
+					x = map[string]any{} // maps.Clone keeps a nil map nil
+				}
 				v = maps.Clone(x)
 				continue
 			case map[string]any:
